@@ -57,6 +57,11 @@ CLAIMED["C05"] = dict(
    note="Sel.Specificity assumed a pure function of the (immutable) selector value with non-negative components (re-proved for every implementation in the package); asciiSet.contains uninterpreted (bit operations); strings.HasPrefix/HasSuffix/Contains/EqualFold/TrimSpace assumed (extern); matching against html.Node trees is not modelled; machine-int-as-math",
    ref="DESIGN.md §4 C05")
 
+CLAIMED["C04"] = dict(
+   text="The defaulting step and the unit kernels are under contract and proved: (*ComputedStyle).cascadeValue returns the cascaded value if there is one, else inherit for inherited and custom properties and initial otherwise; inherit on the root element means initial (also when it comes from a substituted variable, and an invalid pending inherited value on the root falls back to the initial value: two nil-parent defects found and fixed); initial yields pr.InitialValues[prop] and inherit the parent's Get(prop); the function does not dereference a nil parent on any path. length_ converts absolute units with exactly the CSS ratios (1in = 96px = 72pt = 6pc = 2.54cm = 25.4mm = 101.6q; the ratios are read from the init literal of pr.LengthsToPixels on every run), em against the given font size, and returns keywords, percentages and px unchanged. fontWeight maps normal/bold and steps bolder/lighter through the CSS table from the parent's weight, or from the initial weight on the root (defect found and fixed; tables read from the init literal). NOT under contract: the lazy Get/compute pipeline around these kernels (caching order), ex/ch/rem (need font metrics), fontSize keywords, the other ~40 computer functions, pseudo-elements and anonymous boxes (AnonymousStyle.Get).",
+   note="ElementStyle.Get*/Properties.GetFontWeight assumed pure (read-only styles); unknown callees (resolveVar, validators, logger) havoc the heap and their panic-freedom is waived here (C07/C08); float-as-real with float32 table constants de-rounded to their defining fractions; constant tables assumed not mutated after init (no write found in the loaded program); initial font-weight = 400 checked natively (bounded, one case)",
+   ref="DESIGN.md §4 C04")
+
 NOT_YET = {}
 
 NA = {
